@@ -52,6 +52,9 @@ func init() {
 				Edits: []Edit{{File: "platform/definition.go", Old: "func loadPlatformDefinition(f string) (*Definition, error) {\n", New: "var definitionCache = map[string]*Definition{}\n\nfunc loadPlatformDefinition(f string) (*Definition, error) {\n\tif cached, ok := definitionCache[f]; ok {\n\t\tpd := *cached\n\n\t\treturn &pd, nil\n\t}\n\n\tdefer func() {\n\t\tif b, err := loadPlatformDefinitionFromAssets(f); err == nil {\n\t\t\tif pd, err := loadPlatformDefinitionFromBytes(b); err == nil {\n\t\t\t\tdefinitionCache[f] = pd\n\t\t\t}\n\t\t}\n\t}()\n\n"}}},
 			{ID: "C17-variant-error-class", Desc: "missing variant reported as a bad option", Rule: "C17/error-classes",
 				Edits: []Edit{{File: "platform/definition.go", Old: "return nil, fmt.Errorf(\"%w: no variant '%s' in platform\", util.ErrPlatformError, variant)", New: "return nil, fmt.Errorf(\"%w: no variant '%s' in platform\", util.ErrBadOption, variant)"}}},
+			{ID: "C17-driver-before-merge", Desc: "variant: driver built before the variant is merged", Rule: "C17/variant-merged-first",
+				Edits: []Edit{{File: "platform/definition.go", Old: "\tp := pd.Default\n\n\tvp, ok := pd.Variants[variant]", New: "\tp := pd.Default\n\n\terr = setDriver(host, p, opts...)\n\tif err != nil {\n\t\treturn nil, err\n\t}\n\n\tvp, ok := pd.Variants[variant]"},
+					{File: "platform/definition.go", Old: "\tp.mergeVariant(vp)\n\n\terr = setDriver(host, p, opts...)\n\tif err != nil {\n\t\treturn nil, err\n\t}\n", New: "\tp.mergeVariant(vp)\n"}}},
 			{ID: "C17-op-unknown", Desc: "network switch no longer handles driver.send-command", Rule: "C17/steps",
 				Edits: []Edit{{File: "platform/onx.go", Old: "case OpDriverSendCommand:\n\t\t\t\tc, ok", New: "case \"driver.send-cmd\":\n\t\t\t\tc, ok"}}},
 			{ID: "C17-suffix", Desc: "loader appends the wrong suffix", Rule: "C17/name-file",
@@ -63,6 +66,8 @@ func init() {
 }
 
 func runC17(c *Ctx, r *Report) {
+	r.Rule("C17/variant-merged-first", "NewPlatformVariant merges the variant into the platform before the driver is built from it", 1)
+	checkVariantMergedFirst(c, r, "C17/variant-merged-first")
 	r.Rule("C17/error-classes", "each failure site named by the property wraps the sentinel the property names (timeout / auth / connection / privilege / NETCONF / operation / platform error)", 3)
 	checkErrorClasses(c, r, "C17")
 	r.Rule("C17/name-file", "every advertised platform name resolves, through the loader's name->path mapping, to a file matched by the //go:embed pattern whose platform-type equals the name", 15)
